@@ -153,5 +153,5 @@ def plan(tier, seed):
 
 
 def finish(acc, tier, seed):
-    need = 8000 if tier == "quick" else 150000
+    need = 5000 if tier == "quick" else 150000
     return [f"only {acc.evals} sequences compared (< {need})"] if acc.evals < need else []
